@@ -1,3 +1,191 @@
+/-
+  C04 — rewind exactly undoes steps.
+  Property theorems only.  For every script, signature checker and history over {step, rewind} in which
+  no step fails (unbounded length), the state reached is EXACTLY — as a whole record: stack, alt stack,
+  condition stack, code-separator position and script code start, execution data (signature budget),
+  operation count, opcode position, position, sequence number, done flag, the history vectors
+  themselves — the state of a fresh session advanced by the net number of accepted steps.
+-/
 import Btcdeb
+import BtcdebProofs.Lemmas.Session
 namespace Btcdeb.Proofs.C04
+open Btcdeb Btcdeb.Model
+
+inductive Cmd where
+  | step | rewind
+deriving Repr, DecidableEq
+
+/-- one debugger command (`fn_step` / `fn_rewind`): new state and change of the net step count;
+    `none` = the step failed (such histories are outside the property) -/
+def execCmd (cx : Ctx) (tc : TapCtx) (e : IEnv) : Cmd → Option (IEnv × Int)
+  | .step =>
+    if e.done then some (e, 0)                    -- "at end of script": refused, nothing changes
+    else match stepSession cx tc e with
+      | .ok e' => some (e', 1)
+      | .error _ => none
+  | .rewind =>
+    match instRewind e with
+    | some e' => some (e', -1)
+    | none => some (e, 0)                         -- refused, nothing changes
+
+def execHist (cx : Ctx) (tc : TapCtx) : List Cmd → IEnv × Int → Option (IEnv × Int)
+  | [], s => some s
+  | c :: cs, (e, n) =>
+    match execCmd cx tc e c with
+    | some (e', d) => execHist cx tc cs (e', n + d)
+    | none => none
+
+/-- a fresh session advanced by `k` steps, all of which succeed -/
+def advance (cx : Ctx) (tc : TapCtx) (e0 : IEnv) : Nat → Option IEnv
+  | 0 => some e0
+  | k + 1 => match advance cx tc e0 k with
+    | some e => if e.done then none else
+        match stepSession cx tc e with
+        | .ok e' => some e'
+        | .error _ => none
+    | none => none
+
+/-- a rewind that cannot be performed is refused and changes nothing -/
+theorem rewind_refused_id (cx : Ctx) (tc : TapCtx) (e : IEnv) (h : instRewind e = none) :
+    execCmd cx tc e .rewind = some (e, 0) := by
+  simp [execCmd, h]
+
+/-- every state reachable from a fresh session by `k` successful steps satisfies the session invariant,
+    and a rewind issued there is refused exactly when the position is at the start of the current
+    script, and otherwise returns exactly the state after `k - 1` steps -/
+theorem rewind_reachable (cx : Ctx) (tc : TapCtx) (e0 : IEnv) (hinv : e0.Inv) (hstart : atStart e0 = true) :
+    ∀ k e, advance cx tc e0 k = some e →
+      e.Inv ∧
+      ((atStart e = true ∧ instRewind e = none) ∨
+       (∃ j ep, k = j + 1 ∧ advance cx tc e0 j = some ep ∧ instRewind e = some ep)) := by
+  intro k
+  induction k with
+  | zero =>
+    intro e h
+    simp [advance] at h; subst h
+    exact ⟨hinv, Or.inl ⟨hstart, instRewind_of_atStart hstart⟩⟩
+  | succ k ih =>
+    intro e h
+    simp only [advance] at h
+    cases hk : advance cx tc e0 k with
+    | none => simp [hk] at h
+    | some ep =>
+      simp only [hk] at h
+      by_cases hd : ep.done = true
+      · simp [hd] at h
+      · simp only [hd, Bool.false_eq_true, if_false] at h
+        cases hs : stepSession cx tc ep with
+        | error x => simp [hs] at h
+        | ok e' =>
+          simp [hs] at h; subst h
+          have := stepSession_rewind cx tc ep e' (ih ep hk).1 (by simpa using hd) hs
+          refine ⟨this.1, ?_⟩
+          rcases this.2 with h1 | h2
+          · exact Or.inl h1
+          · exact Or.inr ⟨k, ep, rfl, hk, h2⟩
+
+/-- an accepted rewind happens exactly when at least one operation of the current script phase has
+    been executed and not yet undone (so the main theorem cannot be satisfied by refusing everything) -/
+theorem rewind_accepted_iff (cx : Ctx) (tc : TapCtx) (e0 : IEnv) (hinv : e0.Inv) (hstart : atStart e0 = true)
+    (k : Nat) (e : IEnv) (h : advance cx tc e0 k = some e) :
+    (instRewind e).isSome = true ↔ atStart e = false := by
+  rcases (rewind_reachable cx tc e0 hinv hstart k e h).2 with ⟨h1, h2⟩ | ⟨j, ep, _, _, h3⟩
+  · simp [h1, h2]
+  · simp only [h3, Option.isSome_some, true_iff]
+    cases hat : atStart e
+    · rfl
+    · rw [instRewind_of_atStart hat] at h3; cases h3
+
+/-- MAIN THEOREM.  For every history in which no step fails, the state reached equals the state of a
+    fresh session advanced by the net number of accepted steps (and that number is never negative). -/
+theorem C04_rewind_exact (cx : Ctx) (tc : TapCtx) (e0 : IEnv) (hinv : e0.Inv) (hstart : atStart e0 = true)
+    (cmds : List Cmd) (e : IEnv) (n : Int) (h : execHist cx tc cmds (e0, 0) = some (e, n)) :
+    0 ≤ n ∧ advance cx tc e0 n.toNat = some e := by
+  -- generalise to an arbitrary reachable starting point of the fold
+  suffices H : ∀ (cmds : List Cmd) (e1 : IEnv) (n1 : Int), 0 ≤ n1 → advance cx tc e0 n1.toNat = some e1 →
+      ∀ e n, execHist cx tc cmds (e1, n1) = some (e, n) → 0 ≤ n ∧ advance cx tc e0 n.toNat = some e by
+    exact H cmds e0 0 (by omega) (by simp [advance]) e n h
+  intro cmds
+  induction cmds with
+  | nil =>
+    intro e1 n1 h0 ha e n hh
+    simp [execHist] at hh
+    obtain ⟨rfl, rfl⟩ := hh
+    exact ⟨h0, ha⟩
+  | cons c cs ih =>
+    intro e1 n1 h0 ha e n hh
+    simp only [execHist] at hh
+    cases c with
+    | step =>
+      simp only [execCmd] at hh
+      by_cases hd : e1.done = true
+      · simp only [hd, if_true] at hh
+        exact ih e1 (n1 + 0) (by omega) (by simpa using ha) e n hh
+      · simp only [hd, Bool.false_eq_true, if_false] at hh
+        cases hs : stepSession cx tc e1 with
+        | error x => simp [hs] at hh
+        | ok e' =>
+          simp only [hs] at hh
+          refine ih e' (n1 + 1) (by omega) ?_ e n hh
+          have : (n1 + 1).toNat = n1.toNat + 1 := by omega
+          rw [this]
+          simp [advance, ha, hd, hs]
+    | rewind =>
+      simp only [execCmd] at hh
+      cases hr : instRewind e1 with
+      | none =>
+        simp only [hr] at hh
+        exact ih e1 (n1 + 0) (by omega) (by simpa using ha) e n hh
+      | some e' =>
+        simp only [hr] at hh
+        rcases (rewind_reachable cx tc e0 hinv hstart n1.toNat e1 ha).2 with ⟨_, h2⟩ | ⟨j, ep, hj, hadv, h3⟩
+        · rw [h2] at hr; cases hr
+        · have hep : ep = e' := by rw [h3] at hr; exact Option.some.inj hr
+          subst hep
+          refine ih ep (n1 + -1) (by omega) ?_ e n hh
+          have : (n1 + -1).toNat = j := by omega
+          rw [this]; exact hadv
+
+/-- hence every observable of the session — and the outcome of continuing to the end — equal those of
+    the fresh session advanced by the net number of steps -/
+theorem C04_continue_equal (cx : Ctx) (tc : TapCtx) (e0 : IEnv) (hinv : e0.Inv) (hstart : atStart e0 = true)
+    (cmds : List Cmd) (e : IEnv) (n : Int) (h : execHist cx tc cmds (e0, 0) = some (e, n)) (fuel : Nat) :
+    ∃ e', advance cx tc e0 n.toNat = some e' ∧ continueScript cx tc fuel e = continueScript cx tc fuel e' := by
+  obtain ⟨_, ha⟩ := C04_rewind_exact cx tc e0 hinv hstart cmds e n h
+  exact ⟨e, ha, rfl⟩
+
+/-- sessions produced by `setup_environment` start at the beginning of their script and satisfy the invariant -/
+theorem setup_starts_fresh (stack : List Bytes) (script : Bytes) (flags : Nat) (sv : SigVersion) (succ : Bytes)
+    (z : Bool) (ed : ExecData) (tce : Option Tce) (pm : List (Bytes × Bytes)) (pk : List Bytes) (e0 : IEnv)
+    (h : setupEnvironment stack script flags sv succ z ed tce pm pk = .ok e0) :
+    e0.Inv ∧ atStart e0 = true := by
+  unfold setupEnvironment IEnv.init at h
+  split at h
+  · cases h
+  · rename_i e hinit
+    split at hinit
+    · cases hinit
+    · cases hinit
+      split at h
+      · cases h
+      · cases h
+        exact ⟨⟨by simp, fun _ => by simp [atStart]⟩, by simp [atStart]⟩
+
+def exCx : Ctx :=
+  { sha256 := id, ripemd160 := id, sha1 := id, checkLowS := fun _ => true, checkLockTime := fun _ => false,
+    checkSequence := fun _ => false, checkECDSA := fun _ _ _ _ => false, checkSchnorr := fun _ _ _ _ => .ok () }
+def exTc : TapCtx := { taggedHash := fun _ b => b, checkTapTweak := fun _ _ _ _ => false }
+
+/-- the example session `[OP_1 OP_IF OP_2 OP_ENDIF]` and what a history leaves: (net, conditional depth, stack) -/
+def exRun (cmds : List Cmd) : Option (Int × Nat × List Bytes) :=
+  match setupEnvironment [] [0x51, 0x63, 0x52, 0x68] 0 .BASE [] false {} none [] [] with
+  | .ok e0 => (execHist exCx exTc cmds (e0, 0)).map (fun r => (r.2, r.1.see.cond.size, r.1.see.stack))
+  | .error _ => none
+
+/-- non-vacuity: step·step·rewind ends in the state after one step, with the conditional closed again
+    (the configuration that went wrong before the fix), and the hypotheses of the main theorem are met -/
+example : exRun [.step, .step, .rewind] = some (1, 0, [[1]]) ∧ exRun [.step, .step] = some (2, 1, []) ∧
+    exRun [.step, .step, .step, .step, .step, .rewind, .rewind] = some (3, 1, [[2]]) := by
+  decide +kernel
+
 end Btcdeb.Proofs.C04
